@@ -2,6 +2,7 @@
    Property theorems only; proofs live in Proofs/PipelineProofs.v and Proofs/RetryQueueProofs.v. *)
 From Verif Require Import Base.Util Model.Runner Model.RetryQueue Model.Pipeline
      Proofs.RunnerProofs Proofs.RetryQueueProofs Proofs.PipelineProofs Gen.Generated.
+From Verif Require Import Base.GenIR Gen.GeneratedTr Proofs.GenTrRetry.
 Open Scope N_scope.
 
 (* Eligible results: for every flow, cache, payload list, pipeline, batch-failure pattern,
@@ -166,6 +167,61 @@ Proof.
   rewrite Z.max_l in B; [exact B | exact H].
 Qed.
 Print Assumptions C12_gen_retry_constants.
+
+Section GenTie.
+Local Open Scope Z_scope.
+(* ---- Tie to the source by translation (Gen/GeneratedTr.v, regenerated from /repo on every run by gen/translate.go) ----
+   g_* are the decision terms translated from the CURRENT Go code: every condition, the branch structure and which
+   white-listed effect statement runs on which path.  The theorems below state that the model's functions - about
+   which every theorem above speaks - are the interpretation of these terms. *)
+(* retryQueue.Enqueue, loop body: the model's enqueue1 is the interpretation of the generated body (payload replaced only by a strictly higher check block, createdAt kept, interval default) *)
+Theorem C12_gen_retry_Enqueue_decisions :
+  forall divl now q p ivl,
+  let f := rq_find q (pl_wid p) in
+  let r0 := match f with Some r => r | None => mkRec p 0 false now now end in
+  let d := g_rq_enqueue_body (match f with Some _ => true | None => false end)
+                             (Z.of_N (pl_blk p)) (Z.of_N (pl_blk (q_pl r0))) ivl in
+  snd d = Fall
+  /\ has 1 (fst d) = (match f with Some _ => false | None => true end)
+  /\ has 3 (fst d) = true /\ has 4 (fst d) = true /\ has 7 (fst d) = true
+  /\ has 6 (fst d) = negb (has 5 (fst d))
+  /\ enqueue1 divl now q (p, ivl) =
+     rq_put q (pl_wid p) (mkRec (if has 2 (fst d) then p else q_pl r0)
+                                (if has 5 (fst d) then ivl else divl) false (q_created r0) now).
+Proof. exact gen_rq_enqueue_body. Qed.
+Print Assumptions C12_gen_retry_Enqueue_decisions.
+
+(* retryQueueRecord.expired / elapsed: strictly greater than the window *)
+Theorem C12_gen_retry_expired_elapsed :
+  forall dexp r now,
+  g_rq_expired (now - q_created r) dexp = ([], RetB (expired dexp r now)) /\
+  g_rq_elapsed (now - q_updated r) (q_ivl r) = ([], RetB (elapsed r now)).
+Proof. exact gen_rq_expired_elapsed. Qed.
+Print Assumptions C12_gen_retry_expired_elapsed.
+
+(* retryQueue.Dequeue, loop body: the model's deq_visit is the interpretation of the generated body *)
+Theorem C12_gen_retry_Dequeue_decisions :
+  forall dexp now n q out k r,
+  rq_find q k = Some r ->
+  deq_visit dexp now n (q, out, false) k =
+  match g_rq_dequeue_body (expired dexp r now) (q_pend r) (elapsed r now) (Z.of_nat (length (out ++ [q_pl r]))) n with
+  | ([1], Cont) => (rq_remove q k, out, false)
+  | ([2; 3; 4], Brk) => (rq_put q k (set_pending r), out ++ [q_pl r], true)
+  | ([2; 3; 4], Fall) => (rq_put q k (set_pending r), out ++ [q_pl r], false)
+  | _ => (q, out, false)
+  end.
+Proof. exact gen_rq_dequeue_body. Qed.
+Print Assumptions C12_gen_retry_Dequeue_decisions.
+
+(* retryQueue.Size, loop body: a record counts unless pending or expired *)
+Theorem C12_gen_retry_Size_decisions :
+  forall dexp now (kr : N * rrec),
+  negb (q_pend (snd kr)) && negb (expired dexp (snd kr) now) =
+  match g_rq_size_body (q_pend (snd kr)) (expired dexp (snd kr) now) with ([1], Fall) => true | _ => false end.
+Proof. exact gen_rq_size_body. Qed.
+Print Assumptions C12_gen_retry_Size_decisions.
+
+End GenTie.
 
 (* Non-vacuity: payloads [B; A] with A cached and B failing retryably — the hypotheses of
    C12_retry_own_payload hold, A is staged, B (not A) is enqueued with its interval; and a queue
